@@ -141,6 +141,23 @@ struct ElC
 	~ElC() { state = DEAD; --liveObjs(); }
 };
 
+// "not nothrow-movable but nothrow-swappable" (copy-and-swap idiom; the category of vf::ElemSW in common/verif_elems.h): no move
+// constructor (gcc / clang: momo treats every type that DECLARES a move constructor as nothrow relocatable), the copy constructor
+// throws at a fault point before anything is built, assignment takes its argument BY VALUE - its one fallible step is the copy
+// construction of the parameter, before the target changes - and swaps; ADL swap is noexcept.  Array / SegmentedArray assign
+// with a plain `item = ...` (ItemTraits::Assign) and relocate by copy + destroy, so for them this is the model's category
+// "copy-only with throwing assignment" (tc = tm = ta = 1): one fallible step per construction and per assignment, operands
+// untouched when it throws
+struct ElS
+{
+	uint32_t id; uint32_t state;
+	explicit ElS(uint32_t i) : id(i), state(LIVE) { ++liveObjs(); }
+	ElS(const ElS& o) : id((point(), o.id)), state(o.state) { ++liveObjs(); }
+	ElS& operator=(ElS o) { swap(*this, o); return *this; }
+	friend void swap(ElS& a, ElS& b) noexcept { uint32_t i = a.id; a.id = b.id; b.id = i; uint32_t s = a.state; a.state = b.state; b.state = s; }
+	~ElS() { state = DEAD; --liveObjs(); }
+};
+
 template<typename T> struct Kind;
 template<> struct Kind<Tr> { static const bool keeps = true, tc = false, tm = false, ta = false, lo = false; static const char* name() { return "triv"; }
 	static Tr make(uint32_t id) { Tr t; t.id = id; t.state = LIVE; t.pad[0] = id * 7; t.pad[1] = ~id; return t; } };
@@ -148,6 +165,9 @@ template<bool tAT> struct Kind<ElM<tAT>> { static const bool keeps = false, tc =
 	static const char* name() { return tAT ? "nothrowmove_throwassign" : "nothrowmove"; } static ElM<tAT> make(uint32_t id) { return ElM<tAT>(id); } };
 template<bool tAT> struct Kind<ElC<tAT>> { static const bool keeps = true, tc = true, tm = true, ta = tAT, lo = true;
 	static const char* name() { return tAT ? "copyonly_throwassign" : "copyonly"; } static ElC<tAT> make(uint32_t id) { return ElC<tAT>(id); } };
+
+template<> struct Kind<ElS> { static const bool keeps = true, tc = true, tm = true, ta = true, lo = true;
+	static const char* name() { return "copyswap"; } static ElS make(uint32_t id) { return ElS(id); } };
 
 template<typename T> static std::string show(const T& t) {
 	if (t.state == LIVE) return std::to_string(t.id);
